@@ -399,6 +399,11 @@ func (r *Reader) InitialPosition() int64 {
 }
 
 func (r *Reader) Consume(position, maxPosition int64, maxCount int64) ([]Message, error) {
+	// the result is allocated up front: no more messages can follow than records fit
+	// between position and maxPosition, however many the caller is ready to take
+	if most := max(maxPosition-position, 0)/v1HeaderSize + 1; maxCount > most {
+		maxCount = most
+	}
 	var msgs = make([]Message, int(maxCount))
 	var i int64
 	for ; i < maxCount && position <= maxPosition; i++ {
